@@ -121,11 +121,23 @@ fn reps(x: &Ext, r: &mut Rng) -> Vec<V> {
                 }
                 Some((n.clone(), e))
             };
+            // a third of the float embeddings carry unlimited precision (0), a third more precision than digits:
+            // the comparison shortcuts that look at the precision must not depend on it
             if let Some((s, e)) = try_base(2) {
-                out.push(V::FB2(FBig::from_parts(ibig_of_int(&s), e as isize)));
+                let f = FBig::from_parts(ibig_of_int(&s), e as isize);
+                out.push(V::FB2(match r.below(3) {
+                    0 => f.with_precision(0).value(),
+                    1 => { let p = f.precision() + 1 + r.usize(40); f.with_precision(p).value() }
+                    _ => f,
+                }));
             }
             if let Some((s, e)) = try_base(10) {
-                out.push(V::FB10(FBig::from_parts(ibig_of_int(&s), e as isize)));
+                let f = FBig::from_parts(ibig_of_int(&s), e as isize);
+                out.push(V::FB10(match r.below(3) {
+                    0 => f.with_precision(0).value(),
+                    1 => { let p = f.precision() + 1 + r.usize(40); f.with_precision(p).value() }
+                    _ => f,
+                }));
             } else {
                 // d = 2^a 5^b: representable in base 10 after scaling
                 let mut dd = d.clone();
